@@ -16,4 +16,4 @@ require (
 	golang.org/x/sys v0.10.0 // indirect
 )
 
-replace git.sr.ht/~rockorager/vaxis => /tmp/bx/c09/repo
+replace git.sr.ht/~rockorager/vaxis => /repo
